@@ -288,8 +288,10 @@ func (d *Dynamic) Draw(ctx vxfw.DrawContext) (vxfw.Surface, error) {
 
 	// Reset origins and state based on actual draw
 	for i, ch := range s.Children {
+		// The gap below an item belongs to it: the top row of the
+		// viewport may fall into it
 		if ch.Origin.Row <= 0 &&
-			ch.Origin.Row+int(ch.Surface.Size.Height) > 0 {
+			ch.Origin.Row+int(ch.Surface.Size.Height)+d.Gap > 0 {
 			d.scroll.top += uint(i)
 			d.scroll.offset = -ch.Origin.Row
 		}
